@@ -538,10 +538,17 @@ class CancelScope(BaseCancelScope):
                 if self._pending_uncancellations:
                     assert self._parent_scope is not None
                     assert self._parent_scope._pending_uncancellations is not None
-                    self._parent_scope._pending_uncancellations += (
-                        self._pending_uncancellations
-                    )
-                    self._pending_uncancellations = 0
+                    if self._parent_scope._host_task is self._host_task:
+                        self._parent_scope._pending_uncancellations += (
+                            self._pending_uncancellations
+                        )
+                        self._pending_uncancellations = 0
+                    else:
+                        # The parent scope is hosted by another task, so it must not
+                        # be made to uncancel its own host task on our behalf
+                        while self._pending_uncancellations:
+                            self._host_task.uncancel()
+                            self._pending_uncancellations -= 1
 
                 return False
         finally:
